@@ -43,6 +43,8 @@ class Gen:
         owner.sort()      # calls go to lower-numbered functions, so imports go to lower-numbered modules: a DAG
         globs = {m: ["g%d" % m] if r.random() < 0.6 else [] for m in range(k)}
         funcs = []
+        self.ov_mods = [m for m in range(k - 1) if r.random() < 0.4]     # modules that define a non-exported overload pair ov<m>(int) / ov<m>(float)
+        self.ov_uses = []
         for i in range(n):
             callees = [j for j in range(i) if r.random() < 0.5]
             body = [Decl("int", "t", B("+", B("*", V("a"), I(r.choice([2, 3, 5]))), V("b")))]
@@ -56,6 +58,12 @@ class Gen:
                 if r.random() < 0.7:
                     body.append(ES(A(V(g), B("+", V(g), V("t")))))
                     body.append(ES(A(V("t"), B("-", V("t"), V(g)))))
+            # calls into an overload set that lives in a lower module: the int and the float version differ
+            for om in self.ov_mods:
+                if om <= owner[i] and r.random() < 0.6:
+                    body.append(ES(A(V("t"), B("+", V("t"), Call("ov%d" % om, [V("b")])))))
+                    body.append(ES(A(V("t"), B("+", V("t"), B(">", Call("ov%d" % om, [F("1.5")]), F("1.0"))))))
+                    self.ov_uses.append((i, om))
             body.append(Ret(V("t")))
             funcs.append((i, callees, Func("F%d" % i, [Arg("int", "a"), Arg("int", "b")], "int", Block(body), export=True)))
         return funcs, owner, globs, k
@@ -66,6 +74,7 @@ class Gen:
         owner = list(range(k))
         globs = {m: ["g%d" % m] if r.random() < 0.5 else [] for m in range(k)}
         funcs = []
+        self.ov_mods, self.ov_uses = [], []
         for i in range(k):
             callees = sorted(j for (a, j) in edges if a == i)
             body = [Decl("int", "t", B("+", B("*", V("a"), I(r.choice([2, 3, 5]))), V("b")))]
@@ -101,11 +110,19 @@ class Gen:
             for j in callees:
                 if owner[j] != owner[i]:
                     imports[owner[i]].add(owner[j])
+        for (i, om) in getattr(self, "ov_uses", []):
+            if owner[i] != om:
+                imports[owner[i]].add(om)
+        def overloads(m):
+            if m not in getattr(self, "ov_mods", []):
+                return []
+            return [Func("ov%d" % m, [Arg("int", "a")], "int", Block([Ret(B("+", B("*", V("a"), I(2)), I(m + 1)))])),
+                    Func("ov%d" % m, [Arg("float", "a")], "float", Block([Ret(B("*", V("a"), F("0.5")))]))]
         for m in range(k):
-            items = [Global("int", g) for g in globs[m]] + [f for i, c, f in funcs if owner[i] == m]
+            items = [Global("int", g) for g in globs[m]] + overloads(m) + [f for i, c, f in funcs if owner[i] == m]
             text, _ = nslgen.render(Module(items), "canonical", self.rng)
             mods["m%d" % m] = "".join('import "m%d";\n' % j for j in sorted(imports[m])) + text
-        single_items = [Global("int", g) for m in range(k) for g in globs[m]] + [f for _, _, f in funcs]
+        single_items = [Global("int", g) for m in range(k) for g in globs[m]] + [f for m in range(k) for f in overloads(m)] + [f for _, _, f in funcs]
         single, _ = nslgen.render(Module(single_items), "canonical", self.rng)
         return mods, imports, single
 
